@@ -20,4 +20,40 @@ pub(crate) mod verif_stubs {
             std::mem::transmute::<[u64; 2], std::collections::hash_map::RandomState>([0, 0])
         }
     }
+
+    /// Replaces `<Value as GcManaged>::mark`: the real function restricted to the variants the heap
+    /// harnesses build (ObjNative leaves and scalars; any arm that reaches an ObjClass drags a hashbrown
+    /// iteration per recursion level into the encoding) (cuts the 18-way static recursion through every object kind). The real
+    /// `Value::mark` has its own per-variant obligations (C01 H2).
+    pub(crate) fn value_mark_stub(v: &crate::value::Value) {
+        use crate::memory::GcManaged;
+        use crate::value::Value;
+        match v {
+            Value::ObjNative(inner) => inner.mark(),
+            Value::Boolean(_) | Value::Number(_) | Value::None => {}
+            _ => panic!("verif: Value variant not modelled by value_mark_stub"),
+        }
+    }
+    /// Replaces `<Value as GcManaged>::blacken` (same restriction).
+    pub(crate) fn value_blacken_stub(v: &crate::value::Value) {
+        use crate::memory::GcManaged;
+        use crate::value::Value;
+        match v {
+            Value::ObjNative(inner) => inner.blacken(),
+            Value::Boolean(_) | Value::Number(_) | Value::None => {}
+            _ => panic!("verif: Value variant not modelled by value_blacken_stub"),
+        }
+    }
+
+    /// Variant of `value_mark_stub` for the map-key harness (keys are tuples).
+    pub(crate) fn value_mark_stub_tuple(v: &crate::value::Value) {
+        use crate::memory::GcManaged;
+        use crate::value::Value;
+        match v {
+            Value::ObjNative(inner) => inner.mark(),
+            Value::ObjTuple(inner) => inner.mark(),
+            Value::Boolean(_) | Value::Number(_) | Value::None => {}
+            _ => panic!("verif: Value variant not modelled by value_mark_stub_tuple"),
+        }
+    }
 }
